@@ -10,7 +10,7 @@
 (* ====================================================================== *)
 Require Import Arith List Bool ZArith QArith Qcanon.
 From TK Require Import Mat_Sums Mat_Core Mat_Qc Mds_Model Mds_Spec Mds_Spec_Wtol Spectral_Randomized
-                       Mds_Proof_Randomized.
+                       Mds_Model_Randomized.
 Import ListNotations.
 
 Definition c05_factor_w (n d : nat) (T1 : list (list Qc)) (T2 : list Qc)
